@@ -138,7 +138,11 @@ class SimLoop(asyncio.BaseEventLoop):
         if h._cancelled:
             return False
         self.handles_run += 1
-        h._run()
+        self.in_handle = True
+        try:
+            h._run()
+        finally:
+            self.in_handle = False
         return True
 
     def is_idle(self) -> bool:
